@@ -70,6 +70,18 @@ func (sig Multi[T]) RangeWhile(f func(hotstuff.ID) bool) {
 	}
 }
 
+// hasDuplicateSigners returns true if two entries have the same signer.
+func (sig Multi[T]) hasDuplicateSigners() bool {
+	seen := make(map[hotstuff.ID]struct{}, len(sig))
+	for _, s := range sig {
+		if _, dup := seen[s.Signer()]; dup {
+			return true
+		}
+		seen[s.Signer()] = struct{}{}
+	}
+	return false
+}
+
 // Len returns the number of entries in the set.
 func (sig Multi[T]) Len() int {
 	return len(sig)
